@@ -12,6 +12,7 @@ import KiraModel.Exec.SuiteClock
 import KiraModel.Exec.SuiteSpatial
 import KiraModel.Exec.SuiteWav
 import KiraModel.Exec.SuiteStatic
+import KiraModel.Exec.SuiteMixer
 
 open K.Exec K.Exec.Clock K.Exec.Wav
 
@@ -41,6 +42,7 @@ def suiteOf (name : String) : Option Suite :=
   | "transport" => some { σ := Option K.Transport, init := none, step := Static.transportStep }
   | "psm" => some { σ := Static.PsmSuiteState, init := {}, step := Static.psmStep }
   | "static" | "static_ood" => some { σ := Static.StaticSuiteState, init := {}, step := Static.staticStep }
+  | "mixer" | "mixtrk" | "mixpart" => some { σ := MixState, init := {}, step := mixStep }
   | _ => none
 
 def tokens (line : String) : List String :=
